@@ -226,3 +226,26 @@ package http
 //@   modifies* HdrVal[rwHeader(w)], whCalls, statusSent, whLastCode, encCalls, encLast, encCount, encLastVal
 //@   frameprop C20
 //@   ensures* body: encCount == old(encCount) + 1 && typeIs(v, *ErrorResponse) && v.(*ErrorResponse).Name == "fault" && v.(*ErrorResponse).Fault
+
+// ---- text bodies (C15, C20) -----------------------------------------------------------
+// The text decoder hands the caller bytes nobody else holds (a payload never aliases storage that outlives
+// the request), writes only its target and advances only its own reader; the text encoder writes the value's
+// bytes, all of them, to its own writer and touches nothing else.
+//@ func (*textDecoder).Decode
+//@   params e v
+//@   property C15 C20
+//@   requires e != nil
+//@   ensures* own.bytes: result == nil && typeIs(v, *[]byte) ==> len(load(v.(*[]byte))) == 0 || fresh(load(v.(*[]byte)))
+//@   ensures* known.targets.only: result == nil ==> typeIs(v, *[]byte) || typeIs(v, *string)
+//@   modifies* ioState[e.r], cell(v.(*[]byte)), cell(v.(*string))
+//@   frameprop C20 C15
+
+//@ func (*textEncoder).Encode
+//@   params e v
+//@   property C15 C20
+//@   requires e != nil
+//@   ensures* all.bytes: result == nil && typeIs(v, string) ==> select(wroteBytes, e.w) == old(select(wroteBytes, e.w)) + len(v.(string))
+//@   ensures* all.bytes.slice: result == nil && typeIs(v, []byte) ==> select(wroteBytes, e.w) == old(select(wroteBytes, e.w)) + len(v.([]byte))
+//@   ensures* known.values.only: result == nil ==> typeIs(v, string) || typeIs(v, *string) || typeIs(v, []byte)
+//@   modifies* wroteBytes[e.w], ioState[e.w]
+//@   frameprop C20 C15
